@@ -36,6 +36,8 @@ def gen_case(ctx, i):
                     maps[s, c, int(r.integers(0, H)), int(r.integers(0, W))] = 1.0
     elif kind in ("gauss", "symmetric"):
         S, C = int(r.integers(1, 3)), int(r.integers(1, 4))
+        if r.random() < 0.12:  # large batches: more than 64 / 128 / 256 valid peaks refined in one call, counts not multiples of a block size
+            S, C = int(r.integers(4, 18)), int(r.integers(5, 17))
         patch = int(r.choice([3, 5, 7]))
         H, W = int(r.integers(patch + 2, 20)), int(r.integers(patch + 2, 20))
         maps = np.zeros((S, C, H, W), np.float32)
@@ -133,10 +135,14 @@ def check(ctx, case):
                 ctx.violation("value", f"map (s={s},c={c}): reported value {V[s, c]} != maximum {mx}", small)
             if n_max == 1 and x > 0 and y > 0:
                 offfirst = True
-    # channel independence: solo calls
+    # channel independence: solo calls (a sample of 12 maps when the batch is large)
+    cells = [(s, c) for s in range(S) for c in range(C)]
+    if len(cells) > 20:
+        rr = np.random.default_rng(abs(int(case["i"])) + 7)
+        cells = [cells[j] for j in sorted(rr.choice(len(cells), 11, replace=False).tolist())] + [cells[-1]]
     if case["i"] % 3 == 0 or case["i"] < 0:
-        for s in range(S):
-            for c in range(C):
+        for s, c in cells:
+            if True:
                 p1, v1 = pf.find_global_peaks_rough(torch.from_numpy(maps[s:s + 1, c:c + 1].copy()), threshold=thr)
                 ctx.count("solo_calls")
                 a, b = p1.numpy().reshape(2).astype(np.float64), P[s, c]
@@ -145,6 +151,8 @@ def check(ctx, case):
     # refinement
     rp, rv = pf.find_global_peaks(torch.from_numpy(maps.copy()), threshold=thr, refinement="integral", integral_patch_size=patch)
     ctx.count("refine_calls")
+    if S * C > 64:
+        ctx.count("refine_calls_over_64_maps")
     R = rp.numpy().astype(np.float64)
     if tuple(rp.shape) != (S, C, 2) or not np.array_equal(rv.numpy(), vals.numpy()):
         ctx.violation("refine-changes-values", "refinement changed shapes or peak values", small)
@@ -180,8 +188,8 @@ def check(ctx, case):
                         ctx.violation("gaussian-not-improved", f"Gaussian centre {cen.tolist()}: rough error {e_rough.tolist()} -> refined error {e_ref.tolist()} (patch {patch})", small)
         # independence of refined rows (valid rows must not be disturbed by NaN rows / other channels)
         if case["i"] % 3 == 0 or case["i"] < 0:
-            for s in range(S):
-                for c in range(C):
+            for s, c in cells:
+                if True:
                     q = pf.find_global_peaks(torch.from_numpy(maps[s:s + 1, c:c + 1].copy()), threshold=thr, refinement="integral", integral_patch_size=patch)[0]
                     ctx.count("solo_refine_calls")
                     a, b = q.numpy().reshape(2).astype(np.float64), R[s, c]
@@ -204,6 +212,7 @@ def finalize(ctx):
     ctx.require("gaussian_bumps", 5)
     ctx.require("symmetric_bumps", 5)
     ctx.require("below_threshold_maps", 5)
+    ctx.require("refine_calls_over_64_maps", 1)
 
 
 LEVEL_TEXT = ("Every real find_global_peaks_rough / find_global_peaks call on seeded maps is checked against the map itself (reported cell attains the maximum, value, "
